@@ -235,18 +235,21 @@ def lcChangeRO (c : Cfg) (l : Local) (file : File) (din : Option Desc) (b : Bool
   if l.ro = b then { l := l, file := file, out := .noCas, ret := .ok }
   else lcUpdate c { l with ro := b, roTs := now } file din now fault
 
-/-- `ClaimTokensFor`: `Desc.ClaimTokens(from, self)`, heartbeat, sort; afterwards `setTokens` whatever happened -/
+/-- `ClaimTokensFor`: `Desc.ClaimTokens(from, self)`, heartbeat, sort. When the CAS fails (store rejects the call,
+the callback returns an error, the commit is rejected) nothing was claimed and the remembered tokens are kept;
+otherwise `setTokens(claimed)`. -/
 def lcClaim (c : Cfg) (l : Local) (file : File) (din : Option Desc) (frm : String) (now : Int) (fault : Fault) : Res :=
-  if fault = .failBefore then { l := { l with tokens := [] }, file := storeFile c file [], out := .noCas, ret := .ok } else
+  if fault = .failBefore then { l := l, file := file, out := .noCas, ret := .ok } else
   match din with
-  | none => { l := { l with tokens := [] }, file := storeFile c file [], out := .cbErr, ret := .ok }
+  | none => { l := l, file := file, out := .cbErr, ret := .ok }
   | some d =>
     let toks := sortNat (tokensOf d frm)
     let d1 := match d.get? frm with
       | some f => put d { f with tokens := [] }
       | none => d
     let ing : Inst := (d1.get? c.id).getD { id := c.id }
-    { l := { l with tokens := toks }, file := storeFile c file toks,
+    { l := if fault = .failCommit then l else { l with tokens := toks },
+      file := if fault = .failCommit then file else storeFile c file toks,
       out := .write (put d1 { ing with tokens := toks, ts := now }), ret := .ok }
 
 def lcUnregister (c : Cfg) (l : Local) (file : File) (din : Option Desc) (fault : Fault) : Res :=
@@ -299,7 +302,8 @@ def blcRegister (c : Cfg) (file : File) (din : Option Desc) (now : Int) (gen : G
   let d := din.getD []
   let ex := d.get? c.id
   let base := blcInherited c file ex
-  let taken := allTokens d
+  -- the kept tokens may not be in the ring (tokens file): they are reported as taken too
+  let taken := allTokens d ++ base
   let n : Int := (c.numTokens : Int) - base.length
   let toks := sortNat (base ++ gen n taken)
   let inst : Inst :=
